@@ -1,33 +1,95 @@
-//! Stand-alone reproduction of the C01 finding `column-token-reused-across-range-change`
-//! (no harness machinery besides building the zoo language): public Rust API only.
+//! Stand-alone reproductions of the two C01 findings (no harness machinery besides building the
+//! zoo language): public Rust API only.  Exit code = number of scenarios whose incremental tree
+//! differs from the from-scratch tree although the latter has no ERROR/MISSING node.
 //!
-//! Language fx_depends_on_column: `x_is_at = /[ \r\n]*/ (odd_column | even_column) 'x'`, the external
-//! scanner returns odd_column / even_column from `lexer->get_column() % 2`.
-//! Document " x".  First parse: whole document  → (x_is_at (odd_column))   [x is at column 1].
-//! Then the included ranges become [1,2) (only "x"); the text is NOT edited.
-//!   from scratch:  get_column counts included characters only → column 0 → (x_is_at (even_column))
-//!   incremental :  the zero-width odd_column token is reused (its span [1,2) touches no range
-//!                  difference; that the text before it on its line left the ranges is not looked at)
-//! exit code 1 iff the two trees differ.
-use tree_sitter::{Parser, Point, Range};
+//! Language fx_depends_on_column: `x_is_at = /[ \r\n]*/ (odd_column | even_column) 'x'`; the
+//! external scanner returns odd_column / even_column from `lexer->get_column() % 2` (zero-width).
+//!
+//! 1. `column-token-range-change`: text " x".  Parse 1, whole document: (x_is_at (odd_column)).
+//!    Then the included ranges become [1,2) — the text is NOT edited.  From scratch the column
+//!    counts included characters only → column 0 → even_column; incrementally the old
+//!    odd_column token is reused (its span [1,2) touches no range difference; that the text
+//!    before it on its line left the ranges is not looked at).
+//! 2. `empty-range-zero-width`: text "  x".  Parse 1 with the single EMPTY included range [0,0):
+//!    the zero-width tokens sit at byte 0.  Then the ranges become [2,3).  From scratch every node
+//!    starts at byte 2 (the lexer jumps to the start of the first range); incrementally the two
+//!    zero-width tokens are reused at byte 0 — the empty range contributes no "different" byte,
+//!    so the gate sees no difference in [0,1) — and the root spans [0,3) instead of [2,3).
+//! 3. `range-boundary-splits-character`: language fx_unicode_classes (`lower = /\p{Ll}\p{L}*/` …),
+//!    text " aéZ" (é = bytes 2,3).  Parse 1 with the range [1,5): (program (lower [1,5))).  Then the
+//!    ranges become [1,3),[3,5) — the same bytes, but the boundary splits é.  From scratch the lexer
+//!    decodes each range's bytes separately and reports an ERROR; incrementally nothing differs
+//!    byte-wise, the old token is reused and no error is reported (the C13 character-splitting
+//!    issue seen through C01's second clause).
+//! 4. `eof-lookahead-range-added`: language lst (`word = /[a-zé€]+/`), text "ab cd".  Parse 1 with
+//!    the range [0,2): (word [0,2)), the token peeked end-of-input at byte 2 (lookahead 1, span
+//!    [0,3)).  Then the ranges become [0,2),[3,5).  From scratch the lexer runs on into the second
+//!    range: (word [0,5)).  Incrementally the difference [3,5) does not intersect [0,3), the old
+//!    word is reused and a second word [3,5) is lexed.
+use tree_sitter::{Parser, Point, Range, Tree};
 
-fn main() {
-    let b = tsv_harness::zoo::load("fx_depends_on_column").expect("language");
-    let text = b" x";
+fn rng(a: usize, b: usize) -> Range {
+    Range { start_byte: a, end_byte: b, start_point: Point { row: 0, column: a }, end_point: Point { row: 0, column: b } }
+}
+
+fn show(t: &Tree) -> String {
+    let mut out = String::new();
+    let mut c = t.walk();
+    loop {
+        let n = c.node();
+        out.push_str(&format!("({} [{},{}){}) ", n.kind(), n.start_byte(), n.end_byte(), if n.is_missing() { " MISSING" } else if n.is_error() { " ERROR" } else { "" }));
+        if c.goto_first_child() {
+            continue;
+        }
+        loop {
+            if c.goto_next_sibling() {
+                break;
+            }
+            if !c.goto_parent() {
+                return out;
+            }
+        }
+    }
+}
+
+fn scenario(lang: &str, name: &str, text: &[u8], first: &[Range], second: &[Range]) -> i32 {
+    let b = tsv_harness::zoo::load(lang).expect("language");
     let mut p = Parser::new();
     p.set_language(&b.language).unwrap();
+    p.set_included_ranges(first).unwrap();
     let old = p.parse(text, None).unwrap();
-    println!("old (whole document)      : {}", old.root_node().to_sexp());
-    let r = [Range { start_byte: 1, end_byte: 2, start_point: Point { row: 0, column: 1 }, end_point: Point { row: 0, column: 2 } }];
-    p.set_included_ranges(&r).unwrap();
+    p.set_included_ranges(second).unwrap();
     let incr = p.parse(text, Some(&old)).unwrap();
     let mut q = Parser::new();
     q.set_language(&b.language).unwrap();
-    q.set_included_ranges(&r).unwrap();
+    q.set_included_ranges(second).unwrap();
     let scratch = q.parse(text, None).unwrap();
-    println!("incremental, ranges [1,2) : {}", incr.root_node().to_sexp());
-    println!("from scratch, ranges [1,2): {}", scratch.root_node().to_sexp());
-    let same = incr.root_node().to_sexp() == scratch.root_node().to_sexp();
-    println!("{}", if same { "SAME" } else { "DIFFERENT (scratch tree has no ERROR/MISSING)" });
-    std::process::exit(if same { 0 } else { 1 });
+    println!("== {name}: text {:?}", String::from_utf8_lossy(text));
+    println!("  first parse            : {}", show(&old));
+    println!("  incremental, new ranges: {}", show(&incr));
+    println!("  from scratch, new ranges: {}", show(&scratch));
+    let same = show(&incr) == show(&scratch);
+    let (ie, se) = (incr.root_node().has_error(), scratch.root_node().has_error());
+    println!(
+        "  {}",
+        if same {
+            "SAME"
+        } else if !se {
+            "DIFFERENT (scratch tree has no ERROR/MISSING)"
+        } else if !ie {
+            "scratch tree reports an error, incremental tree reports NONE"
+        } else {
+            "different recovery shapes, both report an error (allowed)"
+        }
+    );
+    (!same && (!se || !ie)) as i32
+}
+
+fn main() {
+    let mut bad = 0;
+    bad += scenario("fx_depends_on_column", "column-token-range-change", b" x", &[], &[rng(1, 2)]);
+    bad += scenario("fx_depends_on_column", "empty-range-zero-width", b"  x", &[rng(0, 0)], &[rng(2, 3)]);
+    bad += scenario("fx_unicode_classes", "range-boundary-splits-character", " a\u{e9}Z".as_bytes(), &[rng(1, 5)], &[rng(1, 3), rng(3, 5)]);
+    bad += scenario("lst", "eof-lookahead-range-added", b"ab cd", &[rng(0, 2)], &[rng(0, 2), rng(3, 5)]);
+    std::process::exit(bad);
 }
